@@ -717,3 +717,35 @@ func inSliceIsSorted(e *Engine, caller *frame, fn *ssa.Function, args []Value) V
 	}
 	return e.tt.True
 }
+
+// inIndex: strings.Index / bytes.Index / bytealg.Index*: first occurrence, as an ite chain when
+// any byte is symbolic.
+func inIndex(e *Engine, caller *frame, fn *ssa.Function, args []Value) Value {
+	s, sub := e.bytesOf(args[0]), e.bytesOf(args[1])
+	n, m := len(s), len(sub)
+	if m == 0 {
+		return e.tt.Const(64, 0)
+	}
+	r := e.tt.Const(64, ^uint64(0))
+	for i := n - m; i >= 0; i-- {
+		match := e.tt.True
+		for j := 0; j < m && !match.IsFalse(); j++ {
+			match = e.tt.And(match, e.tt.Eq(s[i+j], sub[j]))
+		}
+		r = e.tt.Ite(match, e.tt.Const(64, uint64(i)), r)
+	}
+	return r
+}
+
+func inContains(e *Engine, caller *frame, fn *ssa.Function, args []Value) Value {
+	idx := inIndex(e, caller, fn, args).(*Term)
+	return e.tt.Not(e.tt.Eq(idx, e.tt.Const(64, ^uint64(0))))
+}
+
+func init() {
+	for _, k := range []string{"strings.Index", "bytes.Index", "internal/bytealg.Index", "internal/bytealg.IndexString"} {
+		intrinsics[k] = inIndex
+	}
+	intrinsics["strings.Contains"] = inContains
+	intrinsics["bytes.Contains"] = inContains
+}
